@@ -20,7 +20,8 @@ RULE = ("History monitor: for generators {white, red, alpha in {0.01,0.5,1,1.3,2
 ASSUMPTIONS = [
     "mixing get_sample and get_series on one instance is not asserted (documented prefetch buffer)",
 ]
-DECIDING_COUNTERS = ["partition_histories", "twin_pairs", "get_sample_runs", "cascade_compared",
+DECIDING_COUNTERS = ["partition_histories", "twin_pairs", "delayed_twin_pairs", "get_sample_runs",
+                     "cascade_compared",
                      "histories_with_request_over_65536",
                      "histories_with_zero_request", "histories_with_single_sample_request"]
 MIN_NONTRIVIAL = {"quick": 300, "thorough": 8000}
@@ -155,6 +156,37 @@ def partition_case(rec, seedt):
         rec.violation("generator-raises", f"{type(e).__name__}: {e}")
 
 
+POOL = []   # (spec, first samples) of generators built earlier in this process
+
+
+def delayed_twin_case(rec, seedt):
+    """Same arguments and seed => same samples, however many other generators were built in
+    between (anything a class remembers across constructions must not leak into a later one)."""
+    rng = gen.rng_for(*seedt)
+    spec = random_spec(rng)
+    spec["init"] = False
+    desc = {"kind": "delayed-twin", "seed": list(seedt), "spec": spec, "pool": len(POOL)}
+    rec.case(desc, nontrivial=len(POOL) >= 16)
+    try:
+        POOL.append((spec, np.asarray(make_gen(spec).get_series(300))))
+        if len(POOL) >= 17:
+            # re-create the generators built 17..40 constructions ago
+            for spec0, first in POOL[-40:-16]:
+                again = np.asarray(make_gen(spec0).get_series(300))
+                rec.count("delayed_twin_pairs")
+                if not np.array_equal(again, first):
+                    rec.violation(f"not-reproducible-after-history:{spec0['gen']}",
+                                  f"a {spec0['gen']} generator re-created with the same arguments "
+                                  f"and seed after {len(POOL)} other constructions gives different "
+                                  f"samples (max |diff| {np.max(np.abs(again - first)):.3e}); "
+                                  f"spec {spec0}")
+                    break
+        if len(POOL) > 60:
+            del POOL[:20]
+    except Exception as e:
+        rec.violation("generator-raises", f"{type(e).__name__}: {e}")
+
+
 def twin_case(rec, seedt):
     rng = gen.rng_for(*seedt)
     spec = random_spec(rng)
@@ -182,6 +214,47 @@ def twin_case(rec, seedt):
         j = int(np.argmax(np.abs(run - stream) > 1e-12 * rms))
         rec.violation(f"get_sample-stream:{spec['gen']}",
                       f"{spec['gen']}: get_sample() run of {m} differs from the stream at sample {j}")
+
+
+def design_case(rec, seedt):
+    """The colouring filter cascade equals the direct-form reference IIR cascade: the samples of a
+    constructed alpha/pink generator equal the same white stream passed through first-order
+    sections designed independently from (fs, fmin, fmax, alpha) by the published recipe."""
+    from scipy import signal
+    rng = gen.rng_for(*seedt)
+    spec = random_spec(rng)
+    if spec["gen"] not in ("alpha", "pink"):
+        spec["gen"] = "alpha"
+    spec["init"] = False
+    desc = {"kind": "design", "seed": list(seedt), "spec": spec}
+    rec.case(desc, nontrivial=True)
+    g = make_gen(spec)
+    n = 2000
+    y = np.asarray(g.get_series(n))
+    fs, fmin, fmax = spec["fs"], spec["fmin"], spec["fmax"]
+    alpha = 1.0 if spec["gen"] == "pink" else spec["alpha"]
+    lw0, lw1 = np.log10(2 * np.pi * fmin), np.log10(2 * np.pi * fmax)
+    ns = int(np.ceil(4.5 * (lw1 - lw0)))
+    dp = (lw1 - lw0) / ns
+    i = np.arange(ns)
+    lp = lw0 + dp * 0.5 * ((2.0 * i + 1.0) - alpha / 2.0)
+    f_lo = 10.0 ** lp / (2 * np.pi)
+    f_hi = 10.0 ** (lp + dp * alpha / 2.0) / (2 * np.pi)
+    w = np.random.default_rng(spec["seed"]).normal(0.0, np.sqrt(1.0 * fs), size=n)
+    x = w.copy()
+    for k in range(ns):
+        den = fs + np.pi * f_lo[k]
+        bco = [(fs + np.pi * f_hi[k]) / den, -(fs - np.pi * f_hi[k]) / den]
+        aco = [1.0, -(fs - np.pi * f_lo[k]) / den]
+        x = signal.lfilter(bco, aco, x)
+    x = x / f_hi[-1] ** (alpha / 2.0)
+    rec.count("design_compared")
+    sc = float(np.max(np.abs(x))) or 1.0
+    if y.shape != x.shape or np.max(np.abs(y - x)) > 1e-9 * sc:
+        rec.violation("cascade-vs-direct-form-design",
+                      f"{spec['gen']} samples differ from the direct-form reference cascade designed "
+                      f"from (fs={fs}, fmin={fmin}, fmax={fmax}, alpha={alpha}): max |diff| "
+                      f"{np.max(np.abs(y - x)):.3e} (scale {sc:.3e})")
 
 
 def cascade_case(rec, seedt):
@@ -221,17 +294,26 @@ def run_shard(params, rec):
             rec.note(f"time budget reached after {i}")
             break
         partition_case(rec, [seed, sh, "part", i])
+        delayed_twin_case(rec, [seed, sh, "dtwin", i])
         if i % 4 == 0:
             twin_case(rec, [seed, sh, "twin", i])
         if i % 2 == 0:
             cascade_case(rec, [seed, sh, "casc", i])
+            design_case(rec, [seed, sh, "design", i])
 
 
 def replay(case, rec):
     k = case["kind"]
-    if k == "partition":
+    if k == "delayed-twin":
+        # the history matters: rebuild the pool the same way the shard did
+        s0 = list(case["seed"])
+        for i in range(s0[-1] + 1):
+            delayed_twin_case(rec, s0[:-1] + [i])
+    elif k == "partition":
         partition_case(rec, case["seed"])
     elif k == "twin":
         twin_case(rec, case["seed"])
+    elif k == "design":
+        design_case(rec, case["seed"])
     else:
         cascade_case(rec, case["seed"])
